@@ -109,6 +109,18 @@ def oracle_c05(rec):
         return out
     if len(Chem.GetMolFrags(mol)) != 1:
         out.append(("disconnected-molecule", inp, Chem.MolToSmiles(mol), None))
+    # what the user sees (`.mol`, `.smiles`) is the molecule the residues account for: same atoms (explicit hydrogens included), same bonds
+    n_bonds = sum(len(b) for b in s["inner"]) + len(s["bonds"])
+    if mol.GetNumAtoms() != s["total_atoms_expected"] or mol.GetNumBonds() != n_bonds:
+        out.append(("public-molecule-differs-from-residues", inp, f".mol has {mol.GetNumAtoms()} atoms / {mol.GetNumBonds()} bonds; the residues of .graph account for "
+                    f"{s['total_atoms_expected']} atoms / {n_bonds} bonds", None))
+    else:
+        try:
+            smi_mol = Chem.MolFromSmiles(molgen.smiles)
+            if smi_mol is None or smi_mol.GetNumHeavyAtoms() != mol.GetNumHeavyAtoms():
+                out.append(("public-molecule-differs-from-residues", inp, f".smiles {molgen.smiles} does not describe the {mol.GetNumHeavyAtoms()} heavy atoms of .mol", None))
+        except Exception as exc:
+            out.append(("public-molecule-differs-from-residues", inp, f".smiles raises {type(exc).__name__}: {exc}", None))
     if not s["opens"]:
         for i, tok in enumerate(toks):
             for k, atom in enumerate(tok.atoms):
